@@ -135,47 +135,47 @@ package phase4
 //@   forall b int, k int :: lo <= b && b < len(g.Layers) && 0 <= b && 0 <= k && k < len(g.Layers[b].Nodes) ==>
 //@     blockwidth[roots[g.Layers[b].Nodes[k]]] >= g.Layers[b].Nodes[k].W
 //@ func execSinkColoring
-//@   requires[in|C04] g != nil && bandsDistinct(g) && sizesNonNeg(g) && params.NodeSpacing >= 0.0 && upward()
-//@   requires[idx|C04] forall b int, k int :: 0 <= b && b < len(g.Layers) && 0 <= k && k < len(g.Layers[b].Nodes) ==> g.Layers[b].Nodes[k].Layer == b
-//@   ensures[sep|C04] sepOK(g, params.NodeSpacing)
-//@   ensures[nonneg|C04] xNonNeg(g)
-//@   ensures[height|C04] heightsOK(g)
-//@   assert[step|C04] before "n.X = xcoord[n]" : d > 0 ==> xsep(g, c8, d - 1, xcoord, blockwidth, roots, params.NodeSpacing)
+//@   requires[in|C04,C09,C12] g != nil && bandsDistinct(g) && sizesNonNeg(g) && params.NodeSpacing >= 0.0 && upward()
+//@   requires[idx|C04,C09,C12] forall b int, k int :: 0 <= b && b < len(g.Layers) && 0 <= k && k < len(g.Layers[b].Nodes) ==> g.Layers[b].Nodes[k].Layer == b
+//@   ensures[sep|C04,C09,C12] sepOK(g, params.NodeSpacing)
+//@   ensures[nonneg|C04,C09,C12] xNonNeg(g)
+//@   ensures[height|C04,C09,C12] heightsOK(g)
+//@   assert[step|C04,C09,C12] before "n.X = xcoord[n]" : d > 0 ==> xsep(g, c8, d - 1, xcoord, blockwidth, roots, params.NodeSpacing)
 //@   loop range(xcoord)#1
 //@     invariant blockmax != nil && xcoord != nil && blockmax != xcoord
-//@     invariant[|C04] blockwidth != xcoord && blockwidth != blockmax && blockWide(g, blockwidth, roots, 0)
-//@     invariant[|C04] forall x *Node :: blockwidth[x] >= 0.0 && xcoord[x] >= 0.0 && blockmax[x] >= 0.0
+//@     invariant[|C04,C09,C12] blockwidth != xcoord && blockwidth != blockmax && blockWide(g, blockwidth, roots, 0)
+//@     invariant[|C04,C09,C12] forall x *Node :: blockwidth[x] >= 0.0 && xcoord[x] >= 0.0 && blockmax[x] >= 0.0
 //@   loop range(slices.Backward(g.Layers))#1 index a
 //@     invariant[|C01] edgePriority != nil && (forall L int, k int :: has(edgePriority, L) && 0 <= k && k < len(edgePriority[L]) ==> edgePriority[L][k] != nil)
-//@     invariant[wide|C04] blockWide(g, blockwidth, roots, len(g.Layers) - a)
-//@     invariant[|C04] forall x *Node :: blockwidth[x] >= 0.0
-//@     invariant[|C04] upward() && prioPrivate(edgePriority)
+//@     invariant[wide|C04,C09,C12] blockWide(g, blockwidth, roots, len(g.Layers) - a)
+//@     invariant[|C04,C09,C12] forall x *Node :: blockwidth[x] >= 0.0
+//@     invariant[|C04,C09,C12] upward() && prioPrivate(edgePriority)
 //@   loop range(layer.Nodes)#1 index i
 //@     invariant[|C01] edgePriority != nil && (forall L int, k int :: has(edgePriority, L) && 0 <= k && k < len(edgePriority[L]) ==> edgePriority[L][k] != nil)
-//@     invariant[wide|C04] blockWide(g, blockwidth, roots, len(g.Layers) - a)
-//@     invariant[widerow|C04] forall k int :: 0 <= k && k < i ==> blockwidth[roots[layer.Nodes[k]]] >= layer.Nodes[k].W
-//@     invariant[|C04] forall x *Node :: blockwidth[x] >= 0.0
-//@     invariant[|C04] upward() && prioPrivate(edgePriority)
+//@     invariant[wide|C04,C09,C12] blockWide(g, blockwidth, roots, len(g.Layers) - a)
+//@     invariant[widerow|C04,C09,C12] forall k int :: 0 <= k && k < i ==> blockwidth[roots[layer.Nodes[k]]] >= layer.Nodes[k].W
+//@     invariant[|C04,C09,C12] forall x *Node :: blockwidth[x] >= 0.0
+//@     invariant[|C04,C09,C12] upward() && prioPrivate(edgePriority)
 //@   loop range(g.Layers)#1 index c4
-//@     invariant[|C04] blockwidth != xcoord && blockWide(g, blockwidth, roots, 0)
-//@     invariant[|C04] forall x *Node :: blockwidth[x] >= 0.0 && xcoord[x] >= 0.0
+//@     invariant[|C04,C09,C12] blockwidth != xcoord && blockWide(g, blockwidth, roots, 0)
+//@     invariant[|C04,C09,C12] forall x *Node :: blockwidth[x] >= 0.0 && xcoord[x] >= 0.0
 //@   loop range(layer.Nodes)#2 index i5
-//@     invariant[|C04] blockwidth != xcoord && blockWide(g, blockwidth, roots, 0) && x >= 0.0
-//@     invariant[|C04] forall x *Node :: blockwidth[x] >= 0.0 && xcoord[x] >= 0.0
+//@     invariant[|C04,C09,C12] blockwidth != xcoord && blockWide(g, blockwidth, roots, 0) && x >= 0.0
+//@     invariant[|C04,C09,C12] forall x *Node :: blockwidth[x] >= 0.0 && xcoord[x] >= 0.0
 //@   loop range(g.Layers)#2 index c7
-//@     invariant[fits|C04] forall b int :: 0 <= b && b < c7 ==> len(g.Layers[b].Nodes) <= lmax
+//@     invariant[fits|C04,C09,C12] forall b int :: 0 <= b && b < c7 ==> len(g.Layers[b].Nodes) <= lmax
 //@   loop range(g.Layers)#3 index c8
-//@     invariant[|C04] forall b int, p int, q int :: 0 <= b && b < c8 && 0 <= p && p < q && q < len(g.Layers[b].Nodes) ==>
+//@     invariant[|C04,C09,C12] forall b int, p int, q int :: 0 <= b && b < c8 && 0 <= p && p < q && q < len(g.Layers[b].Nodes) ==>
 //@       g.Layers[b].Nodes[p].X + g.Layers[b].Nodes[p].W + params.NodeSpacing <= g.Layers[b].Nodes[q].X
-//@     invariant[|C04] forall b int, k int :: 0 <= b && b < c8 && 0 <= k && k < len(g.Layers[b].Nodes) ==>
+//@     invariant[|C04,C09,C12] forall b int, k int :: 0 <= b && b < c8 && 0 <= k && k < len(g.Layers[b].Nodes) ==>
 //@       g.Layers[b].Nodes[k].X >= 0.0 && g.Layers[b].H >= g.Layers[b].Nodes[k].H
 //@   loop range(l.Nodes)#1 index d
-//@     invariant[|C04] forall p int, q int :: 0 <= p && p < q && q < d ==>
+//@     invariant[|C04,C09,C12] forall p int, q int :: 0 <= p && p < q && q < d ==>
 //@       xcoord[l.Nodes[p]] + blockwidth[roots[l.Nodes[p]]] + params.NodeSpacing <= xcoord[l.Nodes[q]]
-//@     invariant[|C04] forall k int :: 0 <= k && k < d ==> l.Nodes[k].X == xcoord[l.Nodes[k]] && l.H >= l.Nodes[k].H
-//@     invariant[|C04] forall b int, p int, q int :: 0 <= b && b < c8 && 0 <= p && p < q && q < len(g.Layers[b].Nodes) ==>
+//@     invariant[|C04,C09,C12] forall k int :: 0 <= k && k < d ==> l.Nodes[k].X == xcoord[l.Nodes[k]] && l.H >= l.Nodes[k].H
+//@     invariant[|C04,C09,C12] forall b int, p int, q int :: 0 <= b && b < c8 && 0 <= p && p < q && q < len(g.Layers[b].Nodes) ==>
 //@       g.Layers[b].Nodes[p].X + g.Layers[b].Nodes[p].W + params.NodeSpacing <= g.Layers[b].Nodes[q].X
-//@     invariant[|C04] forall b int, k int :: 0 <= b && b < c8 && 0 <= k && k < len(g.Layers[b].Nodes) ==>
+//@     invariant[|C04,C09,C12] forall b int, k int :: 0 <= b && b < c8 && 0 <= k && k < len(g.Layers[b].Nodes) ==>
 //@       g.Layers[b].Nodes[k].X >= 0.0 && g.Layers[b].H >= g.Layers[b].Nodes[k].H
 
 // ---------------------------------------------------------------------------
@@ -210,28 +210,28 @@ package phase4
 //@ spec xsep(g *DGraph, b int, k int, xcoord map[*Node]float64, blockwidth map[*Node]float64, roots map[*Node]*Node, spacing float64) bool =
 //@   xcoord[g.Layers[b].Nodes[k+1]] >= xcoord[g.Layers[b].Nodes[k]] + blockwidth[roots[g.Layers[b].Nodes[k]]] + spacing
 //@ func placeBlock
-//@   requires[maps|C04] blockwidth != xcoord && blockwidth != blockmax && xcoord != blockmax
-//@   requires[fits|C04] forall b int :: 0 <= b && b < len(g.Layers) ==> g.Layers[b] != nil && len(g.Layers[b].Nodes) <= layerMaxLen
-//@   requires[nn|C04] spacing >= 0.0 && (forall x *Node :: blockmax[x] >= 0.0 && blockwidth[x] >= 0.0 && xcoord[x] >= 0.0)
-//@   ensures[bw|C04] forall x *Node :: blockwidth[x] == old(blockwidth[x])
-//@   ensures[nn|C04] forall x *Node :: blockmax[x] >= 0.0 && xcoord[x] >= 0.0
-//@   ensures[sep|C04] forall b int, k int :: 0 <= b && b < len(g.Layers) && 0 <= k && k + 1 < len(g.Layers[b].Nodes) ==>
+//@   requires[maps|C04,C09,C12] blockwidth != xcoord && blockwidth != blockmax && xcoord != blockmax
+//@   requires[fits|C04,C09,C12] forall b int :: 0 <= b && b < len(g.Layers) ==> g.Layers[b] != nil && len(g.Layers[b].Nodes) <= layerMaxLen
+//@   requires[nn|C04,C09,C12] spacing >= 0.0 && (forall x *Node :: blockmax[x] >= 0.0 && blockwidth[x] >= 0.0 && xcoord[x] >= 0.0)
+//@   ensures[bw|C04,C09,C12] forall x *Node :: blockwidth[x] == old(blockwidth[x])
+//@   ensures[nn|C04,C09,C12] forall x *Node :: blockmax[x] >= 0.0 && xcoord[x] >= 0.0
+//@   ensures[sep|C04,C09,C12] forall b int, k int :: 0 <= b && b < len(g.Layers) && 0 <= k && k + 1 < len(g.Layers[b].Nodes) ==>
 //@       xsep(g, b, k, xcoord, blockwidth, roots, spacing)
 //@   loop range(g.Nodes)#1
-//@     invariant[|C04] forall x *Node :: blockwidth[x] == old(blockwidth[x])
-//@     invariant[|C04] forall x *Node :: blockmax[x] >= 0.0 && xcoord[x] >= 0.0
+//@     invariant[|C04,C09,C12] forall x *Node :: blockwidth[x] == old(blockwidth[x])
+//@     invariant[|C04,C09,C12] forall x *Node :: blockmax[x] >= 0.0 && xcoord[x] >= 0.0
 //@   loop for(k<layerMaxLen)#1
-//@     invariant[|C04] 0 <= k
-//@     invariant[|C04] forall x *Node :: blockwidth[x] == old(blockwidth[x])
-//@     invariant[|C04] forall x *Node :: blockmax[x] >= 0.0 && xcoord[x] >= 0.0
-//@     invariant[checked|C04] !shift ==> (forall b int, j int :: 0 <= b && b < len(g.Layers) && 0 <= j && j < k && j + 1 < len(g.Layers[b].Nodes) ==>
+//@     invariant[|C04,C09,C12] 0 <= k
+//@     invariant[|C04,C09,C12] forall x *Node :: blockwidth[x] == old(blockwidth[x])
+//@     invariant[|C04,C09,C12] forall x *Node :: blockmax[x] >= 0.0 && xcoord[x] >= 0.0
+//@     invariant[checked|C04,C09,C12] !shift ==> (forall b int, j int :: 0 <= b && b < len(g.Layers) && 0 <= j && j < k && j + 1 < len(g.Layers[b].Nodes) ==>
 //@       xsep(g, b, j, xcoord, blockwidth, roots, spacing))
 //@   loop range(g.Layers)#1 index a
-//@     invariant[|C04] forall x *Node :: blockwidth[x] == old(blockwidth[x])
-//@     invariant[|C04] forall x *Node :: blockmax[x] >= 0.0 && xcoord[x] >= 0.0
-//@     invariant[checked|C04] !shift ==> (forall b int, j int :: 0 <= b && b < len(g.Layers) && 0 <= j && j < k && j + 1 < len(g.Layers[b].Nodes) ==>
+//@     invariant[|C04,C09,C12] forall x *Node :: blockwidth[x] == old(blockwidth[x])
+//@     invariant[|C04,C09,C12] forall x *Node :: blockmax[x] >= 0.0 && xcoord[x] >= 0.0
+//@     invariant[checked|C04,C09,C12] !shift ==> (forall b int, j int :: 0 <= b && b < len(g.Layers) && 0 <= j && j < k && j + 1 < len(g.Layers[b].Nodes) ==>
 //@       xsep(g, b, j, xcoord, blockwidth, roots, spacing))
-//@     invariant[row|C04] !shift ==> (forall b int :: 0 <= b && b < a && k + 1 < len(g.Layers[b].Nodes) ==>
+//@     invariant[row|C04,C09,C12] !shift ==> (forall b int :: 0 <= b && b < a && k + 1 < len(g.Layers[b].Nodes) ==>
 //@       xsep(g, b, k, xcoord, blockwidth, roots, spacing))
 
 // setColor (sink colouring): the scan for a viable in-edge stays inside n.In
@@ -241,15 +241,15 @@ package phase4
 //@   assert[a1|C01] before "priority[n.Layer] = append" : e != nil && (forall L int, k int :: has(priority, L) && 0 <= k && k < len(priority[L]) ==> priority[L][k] != nil)
 //@   assert[a2|C01] after "priority[n.Layer] = append" : forall k int :: 0 <= k && k < len(priority[n.Layer]) ==> priority[n.Layer][k] != nil
 //@   assert[a3|C01] after "priority[n.Layer] = append" : forall L int, k int :: L != n.Layer && has(priority, L) && 0 <= k && k < len(priority[L]) ==> priority[L][k] != nil
-//@   requires[up|C04] n != nil && upward() && prioPrivate(priority)
-//@   ensures[up|C04] upward() && prioPrivate(priority)
-//@   ensures[w|C04] result1 >= n.W
-//@   ensures[rootsframe|C04] forall x *Node :: x != n && x.Layer >= n.Layer ==> roots[x] == old(roots[x])
+//@   requires[up|C04,C09,C12] n != nil && upward() && prioPrivate(priority)
+//@   ensures[up|C04,C09,C12] upward() && prioPrivate(priority)
+//@   ensures[w|C04,C09,C12] result1 >= n.W
+//@   ensures[rootsframe|C04,C09,C12] forall x *Node :: x != n && x.Layer >= n.Layer ==> roots[x] == old(roots[x])
 //@   loop range(n.In)#1
-//@     invariant[|C04] e == nil || (e.To == n && e.From != nil && e.From.Layer <= n.Layer)
+//@     invariant[|C04,C09,C12] e == nil || (e.To == n && e.From != nil && e.From.Layer <= n.Layer)
 //@   loop for(e==nil||e.SelfLoops()||e.IsFlat())#1
 //@     invariant 0 <= i
-//@     invariant[|C04] e == nil || (e.To == n && e.From != nil && e.From.Layer <= n.Layer)
+//@     invariant[|C04,C09,C12] e == nil || (e.To == n && e.From != nil && e.From.Layer <= n.Layer)
 
 //@ func verifyLayout
 //@   requires[|C01] forall k int :: 0 <= k && k < len(layers) ==> layers[k] != nil
